@@ -94,6 +94,7 @@ impl<T: RealNumber, D: Distance<Vec<T>, T>> DBSCAN<T, D> {
                 &&& all_used(y, k) //# fit-labels-gap-free
                 &&& forall|q: int| 0 <= q < g.n() && g.core(q) ==> #[trigger] y[q] >= 0 //# fit-core-points-clustered
                 &&& forall|q: int, j: int| 0 <= q < g.n() && 0 <= j < g.n() && g.core(q) && g.core(j) && #[trigger] g.nb(q, j) ==> y[q] == y[j] //# fit-adjacent-cores-same-label
+                &&& forall|path: Seq<int>| #[trigger] g.core_path(path) ==> y[path.first()] == y[path.last()] //# fit-density-connected-cores-same-label
                 &&& forall|q: int| 0 <= q < g.n() && !g.core(q) && g.has_core_nb(q) ==> g.core_nb_labelled(y, q, #[trigger] y[q] as int) //# fit-border-takes-label-of-a-core-neighbour
                 &&& forall|q: int| 0 <= q < g.n() && #[trigger] y[q] == -1 ==> !g.core(q) && !g.has_core_nb(q) //# fit-noise-is-not-density-reachable
                 &&& forall|q: int| 0 <= q < g.n() && !g.core(q) && !g.has_core_nb(q) ==> #[trigger] y[q] == -1 //# fit-remaining-points-are-noise
